@@ -21,6 +21,32 @@ func c07Check(c stage.Cfg) func(o *obs.Obs) string {
 		}
 		got, errs, calls := o.Strs("got"), o.Strs("err"), o.Strs("call")
 		cancelled := o.Has("cancel")
+		if c.Stage == "map2" {
+			// the second stage shares the F value of the first and runs over elements 33.. that never fail: it must
+			// deliver every image, no error, and close, whatever happened in the first stage
+			var callsA, callsB, wantB, wantCallsB []string
+			for _, x := range calls {
+				if len(x) >= 2 && x >= "33" && len(x) == 2 {
+					callsB = append(callsB, x)
+				} else {
+					callsA = append(callsA, x)
+				}
+			}
+			calls = callsA
+			for x := 33; x < 33+c.K; x++ {
+				wantB = append(wantB, fmt.Sprint(x*10))
+				wantCallsB = append(wantCallsB, fmt.Sprint(x))
+			}
+			if gb := o.Strs("gotb"); !obs.Equal(gb, wantB) || o.N("errb") != 0 {
+				return fmt.Sprintf("%s/shared-f|a second Map stage using the same F value over elements that never fail delivered %v and errors %v, want %v and no error (first stage failing on %s)", tag, gb, o.Strs("errb"), wantB, maskStr(c))
+			}
+			if !obs.Equal(callsB, wantCallsB) {
+				return fmt.Sprintf("%s/shared-f|the second stage called the function on %v, want %v", tag, callsB, wantCallsB)
+			}
+			if !o.Has("gotb-eof") || !o.Has("errb-eof") {
+				return fmt.Sprintf("%s/shared-f|the second stage never closed its channels (library: %v)", tag, o.LibBlocked())
+			}
+		}
 		if r.infinite || cancelled {
 			// generator stopped by the consumer's cancel: everything up to the cancel must be exact
 			if !obs.IsPrefix(got, r.outs["got"]) {
@@ -101,7 +127,7 @@ func c07Scenarios(tier string) []e1lib.Scenario {
 			b = 3
 		}
 		var done []string
-		if c.Stage == "map" || c.Stage == "fmap" {
+		if (c.Stage == "map" || c.Stage == "fmap") && !c.Idle {
 			done = []string{"got-eof"}
 			if c.ErrRd == "reader" {
 				done = append(done, "err-eof")
@@ -118,6 +144,28 @@ func c07Scenarios(tier string) []e1lib.Scenario {
 						for _, rd := range []string{"reader", "stderr"} {
 							add(stage.Cfg{Stage: st, Mode: mode, K: k, Cap: cp, Mask: m << 1, ErrRd: rd, Stop: -1})
 						}
+					}
+				}
+			}
+		}
+	}
+	// one F value shared by two Map stages; a producer that goes idle instead of closing the input (fail-fast must
+	// still close both channels at the first failure)
+	for _, mode := range []string{"lift", "try"} {
+		for k := 1; k <= 3; k++ {
+			for cp := 0; cp <= 1; cp++ {
+				for m := 0; m < 1<<k; m++ {
+					add(stage.Cfg{Stage: "map2", Mode: mode, K: k, Cap: cp, Mask: m << 1, ErrRd: "reader", Stop: -1})
+				}
+			}
+		}
+	}
+	for _, st := range []string{"map", "fmap"} {
+		for k := 1; k <= 3; k++ {
+			for cp := 0; cp <= 2; cp++ {
+				for m := 1; m < 1<<k; m++ {
+					for _, rd := range []string{"reader", "stderr"} {
+						add(stage.Cfg{Stage: st, Mode: "lift", K: k, Cap: cp, Mask: m << 1, ErrRd: rd, Stop: -1, Idle: true})
 					}
 				}
 			}
@@ -148,6 +196,6 @@ func c07Scenarios(tier string) []e1lib.Scenario {
 
 func propC07() drv.Property {
 	return table("C07",
-		"one case = {Map, FMap} x {Lift, Try} x input 1..k (k<=3, 5 in thorough) x capacity 0..2 x every subset of failing elements (2^k) x error consumer {harness reader, pipe.StdErr}; Emit over every failing subset of the indices 0..3 (Lift until the first failure; Try until the consumer cancels after 1 or 2 values); Unfold (fail-fast) over every failing subset of the seeds 1..4; value consumer and error consumer are independent threads; every interleaving explored (state-cached, unbounded); non-trivial = at least one failing element and more than one execution. Random longer inputs are not generated (sampling is outside this family)",
+		"one case = {Map, FMap} x {Lift, Try} x input 1..k (k<=3, 5 in thorough) x capacity 0..2 x every subset of failing elements (2^k) x error consumer {harness reader, pipe.StdErr}; the same F value shared by two Map stages (the second over elements that never fail); fail-fast stages whose producer goes idle instead of closing the input; Emit over every failing subset of the indices 0..3 (Lift until the first failure; Try until the consumer cancels after 1 or 2 values); Unfold (fail-fast) over every failing subset of the seeds 1..4; value consumer and error consumer are independent threads; every interleaving explored (state-cached, unbounded); non-trivial = at least one failing element and more than one execution. Random longer inputs are not generated (sampling is outside this family)",
 		commonAssumptions, c07Scenarios)
 }
